@@ -515,6 +515,44 @@ def build_misc(d):
         o <<= pyrtl.concat(*ins)
         o2 = pyrtl.Output(3, 'o2')
         o2 <<= pyrtl.concat(*ins)[1:4] if sum(ws) >= 4 else pyrtl.concat(*ins)[0:1]
+    elif k == 'mem_const_addr':
+        # a read port whose address is a constant while another port writes the memory (the read is not a constant)
+        m = pyrtl.MemBlock(bitwidth=w, addrwidth=2, name='m', asynchronous=True)
+        wa_, wd, we = pyrtl.Input(2, 'wa'), pyrtl.Input(w, 'wd'), pyrtl.Input(1, 'we')
+        m[wa_] <<= pyrtl.MemBlock.EnabledWrite(wd, we)
+        o = pyrtl.Output(w, 'o')
+        o <<= m[2]
+        o2 = pyrtl.Output(w, 'o2')
+        o2 <<= m[pyrtl.Const(1, bitwidth=2)] ^ pyrtl.Const(1, bitwidth=w)
+    elif k == 'mem_clear_port':
+        # one port writes a constant 0 (a clear port), another writes data
+        m = pyrtl.MemBlock(bitwidth=w, addrwidth=2, name='m', asynchronous=True, max_write_ports=None)
+        ca, clr = pyrtl.Input(2, 'ca'), pyrtl.Input(1, 'clr')
+        wa_, wd, we, ra = pyrtl.Input(2, 'wa'), pyrtl.Input(w, 'wd'), pyrtl.Input(1, 'we'), pyrtl.Input(2, 'ra')
+        m[ca] <<= pyrtl.MemBlock.EnabledWrite(pyrtl.Const(0, bitwidth=w), clr)
+        m[wa_] <<= pyrtl.MemBlock.EnabledWrite(wd, we)
+        o = pyrtl.Output(w, 'o')
+        o <<= m[ra]
+    elif k == 'mem_tied_enable':
+        # a write port whose enable is tied to constant 0 (never writes) next to a live one; and one tied to 1
+        m = pyrtl.MemBlock(bitwidth=w, addrwidth=2, name='m', asynchronous=True, max_write_ports=None)
+        m2 = pyrtl.MemBlock(bitwidth=w, addrwidth=1, name='m2', asynchronous=True)
+        ta, td = pyrtl.Input(2, 'ta'), pyrtl.Input(w, 'td')
+        wa_, wd, we, ra = pyrtl.Input(2, 'wa'), pyrtl.Input(w, 'wd'), pyrtl.Input(1, 'we'), pyrtl.Input(2, 'ra')
+        m[ta] <<= pyrtl.MemBlock.EnabledWrite(td, pyrtl.Const(0, bitwidth=1))
+        m[wa_] <<= pyrtl.MemBlock.EnabledWrite(wd, we)
+        m2[ra[0]] <<= pyrtl.MemBlock.EnabledWrite(td, pyrtl.Const(1, bitwidth=1))
+        o = pyrtl.Output(w, 'o')
+        o <<= m[ra]
+        o2 = pyrtl.Output(w, 'o2')
+        o2 <<= m2[wa_[0]]
+    elif k == 'rom_sparse_pad':
+        # dict ROM data with holes, padded with zeros: keys beyond the NUMBER of entries hold non-zero words
+        rom = pyrtl.RomBlock(bitwidth=8, addrwidth=4, romdata={0: 7, 3: 0x19, 9: 0x2A, 12: 1, 15: 0x80}, name='rom',
+                             asynchronous=True, pad_with_zeros=True)
+        a = pyrtl.Input(4, 'a')
+        o = pyrtl.Output(8, 'o')
+        o <<= rom[a]
     else:
         raise ValueError(k)
     return pyrtl.working_block()
@@ -531,6 +569,9 @@ def misc_cases():
     for rv, cv in ((None, 0), (None, 1), (1, 1), (0, 1), (1, 0)):
         out.append({'fam': 'MISC', 'kind': 'const_reg_bit', 'rv': rv, 'cv': cv})
         out.append({'fam': 'MISC', 'kind': 'const_reg', 'w': 3, 'rv': None if rv is None else rv * 5, 'cv': cv * 5})
+    for k in ('mem_const_addr', 'mem_clear_port', 'mem_tied_enable'):
+        out.append({'fam': 'MISC', 'kind': k, 'w': 3})
+    out.append({'fam': 'MISC', 'kind': 'rom_sparse_pad'})
     return out
 
 
